@@ -84,15 +84,19 @@ def run_case(case):
 def configs(tier):
     out = []
 
-    def add(d, lmax, margin, reb, safety, D, s, version=6, boundary=True, towards=None, halflines=False):
+    def add(d, lmax, margin, reb, safety, D, s, version=6, boundary=True, towards=None, halflines=False, a=None, b=None):
         c = {"d": d, "lmin": 1, "lmax": lmax, "version": version, "rebalancing": reb, "boundary": boundary,
              "margin": margin, "safety": safety, "s": s}
+        if a is not None:
+            c["a"], c["b"] = a, b
         if towards:
             c["towards"] = towards
         if halflines:
             c["halflines"] = True
         out.append((c, D))
     if tier == "quick":
+        # a domain far from the origin (rebalancing compares interval positions and widths)
+        add(1, 2, 0.9, True, 0.1, 6, 1, a=[1048576.0], b=[1048577.0], towards=[[1048576.3], [1048576.34]])
         for margin in (0.5, 0.9, 1.0):
             add(2, 2, margin, True, 0.1, 2, 1)
         for safety in (0.0, 0.1, 0.5):
@@ -140,7 +144,7 @@ def main(ctx):
                            "history": [[[0, 0.0, 0.25, 1.0]], [[0, 0.0, 0.125, 1.0], [1, 0.5, 0.75, 0.9]]]})
     for config, D in configs(ctx.tier):
         tag = "d%d_lmax%d_m%s_reb%d_sf%s_D%d_s%d%s" % (config["d"], config["lmax"], config["margin"], config["rebalancing"],
-                                                      config["safety"], D, config["s"], "_towards" if config.get("towards") else ("_halflines" if config.get("halflines") else ""))
+                                                      config["safety"], D, config["s"], ("_towards" if config.get("towards") else ("_halflines" if config.get("halflines") else "")) + ("_far" if config.get("a") else ""))
         ctx.bounds[tag] = core.bfs(ctx, config, D, tag=tag)
     return ctx.finish(
         rule="state = per-dimension interval lists reached by a history of benefit assignments; events = selected set S "
